@@ -246,6 +246,8 @@ def r07_2(run):
                 elif isinstance(v, list):
                     states.update(x for x in v if isinstance(x, str))
     run.floor('R07.2', 'stream states compared in Stream.update', len(states), 8)
+    cidv = names_defined_by(up, lambda v: isinstance(v, ast.Call) and dotted(v.func) == 'int' and v.args and isinstance(v.args[0], ast.Subscript) and const(v.args[0].slice) == 2)
+    run.floor('R07.2', 'locals holding the reported circuit id', len(cidv), 1)
     npaths = 0
     reported = set()
     for S in sorted(states) + ['<OTHER>']:
@@ -286,6 +288,20 @@ def r07_2(run):
                     run.ob('R07.2', up, last, 'attachment invariant (circuit is None <=> not listed under any circuit) preserved [%s exit]' % p.exit, inv,
                            slot='inv:%s:%s' % (S if S in GONE else 'live', p.exit),
                            message='Stream.update leaves circuit=%s but stream %s in the circuit\'s list (%s)' % (C, L, tag), path=p.describe(10))
+                if S not in GONE and S != '<OTHER>' and p.exit != 'raise' and not errs:
+                    took = [(n, lab) for n, lab in p.steps if n.kind == 'test' and isinstance(n.ast, ast.Compare) and dotted(n.ast.left) in cidv
+                            and const(n.ast.comparators[0]) == 0 and len(n.ast.ops) == 1 and isinstance(n.ast.ops[0], (ast.Eq, ast.NotEq))]
+                    if not took:
+                        run.ob('R07.2', up, last, 'a %s event\'s circuit id is applied to the attachment' % S, False, slot='attachment-follows:%s' % S,
+                               message='Stream.update[%s] never looks at the circuit id Tor reported: the stream is not (re)attached / detached as reported (%s)' % (S, tag),
+                               path=p.describe(10))
+                    else:
+                        n0, lab0 = took[0]
+                        zero = (lab0 == 'T') == isinstance(n0.ast.ops[0], ast.Eq)
+                        okf = (C == 'None' and L == 'unlisted') if zero else (C == 'Some' and L == 'listed')
+                        run.ob('R07.2', up, last, 'after a %s event the stream is attached exactly as reported (circuit id %s)' % (S, '0' if zero else 'non-zero'), okf,
+                               slot='attachment-follows:%s:%s' % (S, 'zero' if zero else 'nonzero'),
+                               message='Stream.update[%s] with circuit id %s ends with circuit=%s / %s (%s)' % (S, '0' if zero else '!= 0', C, L, tag), path=p.describe(10))
                 if S in GONE and p.exit != 'raise' and not errs:
                     run.ob('R07.3', up, last, 'after %s the stream is under no circuit' % S, C == 'None' and L == 'unlisted', slot='gone:%s' % S,
                            message='after %s the stream still has circuit=%s / %s (%s)' % (S, C, L, tag), path=p.describe(10))
@@ -341,6 +357,31 @@ def r07_2(run):
                    message='%s rebinds Circuit.streams' % u.short)
 
 
+def target_learning(run, rid, states=TARGET_STATES):
+    # a stream learns its target from the first event that can carry it (instances confirmed on
+    # today's tree: NEW, NEWRESOLVE, SUCCEEDED - the latter for streams first seen in a snapshot)
+    su = run.idx.find_method(stream_cls(run), 'update')
+    gsu = cfg_of(su)
+    for S in states:
+        def hook(node, val, trail, S=S):
+            a = node.ast
+            r = eval_small(a, {'self.state': S, 'self.target_host': None, 'self._addrmap': None})
+            if r is not UNKNOWN and (mentions(a, 'self.state') or mentions(a, 'self.target_host') or mentions(a, 'self._addrmap')):
+                # target_host is assigned on the way: only decide before that
+                if mentions(a, 'self.target_host') and any(n.kind == 'stmt' and assign_to(n.ast, 'self.target_host') is not None for n, _ in trail):
+                    return None
+                return bool(r)
+            return None
+        for p_ in gsu.paths(eval_hook=hook, loop_bound=1, follow_exc=False, pure_calls=('self._notify', 'self._create_flags', 'self.maybe_call_closing_deferred')):
+            run.paths_enumerated += 1
+            if p_.exit == 'raise':
+                continue
+            th = any(n.kind == 'stmt' and assign_to(n.ast, 'self.target_host') is not None for n, _ in p_.steps)
+            tp = any(n.kind == 'stmt' and assign_to(n.ast, 'self.target_port') is not None for n, _ in p_.steps)
+            run.ob(rid, su, su.node, 'a stream whose target is unknown learns host and port from a %s event' % S, th and tp, slot='target:%s' % S,
+                   message='Stream.update[%s] with target_host None leaves the target unset (streams first seen in this state keep target (None, 0))' % S)
+
+
 def r07_4(run):
     for ci, name in ((circuit_cls(run), 'Circuit'), (stream_cls(run), 'Stream')):
         up = run.idx.find_method(ci, 'update')
@@ -387,28 +428,7 @@ def r07_4(run):
                    message='Circuit.update assigns %s only under %s: the first value sticks and later events (e.g. a purpose change) are ignored'
                    % (d, src(bad[0].ast) if bad else ''))
     run.floor('R07.4', 'Circuit fields copied from event keywords', klw, 2)
-    # a stream learns its target from the first event that can carry it (instances confirmed on
-    # today's tree: NEW, NEWRESOLVE, SUCCEEDED - the latter for streams first seen in a snapshot)
-    su = run.idx.find_method(stream_cls(run), 'update')
-    gsu = cfg_of(su)
-    for S in TARGET_STATES:
-        def hook(node, val, trail, S=S):
-            a = node.ast
-            r = eval_small(a, {'self.state': S, 'self.target_host': None, 'self._addrmap': None})
-            if r is not UNKNOWN and (mentions(a, 'self.state') or mentions(a, 'self.target_host') or mentions(a, 'self._addrmap')):
-                # target_host is assigned on the way: only decide before that
-                if mentions(a, 'self.target_host') and any(n.kind == 'stmt' and assign_to(n.ast, 'self.target_host') is not None for n, _ in trail):
-                    return None
-                return bool(r)
-            return None
-        for p_ in gsu.paths(eval_hook=hook, loop_bound=1, follow_exc=False, pure_calls=('self._notify', 'self._create_flags', 'self.maybe_call_closing_deferred')):
-            run.paths_enumerated += 1
-            if p_.exit == 'raise':
-                continue
-            th = any(n.kind == 'stmt' and assign_to(n.ast, 'self.target_host') is not None for n, _ in p_.steps)
-            tp = any(n.kind == 'stmt' and assign_to(n.ast, 'self.target_port') is not None for n, _ in p_.steps)
-            run.ob('R07.4', su, su.node, 'a stream whose target is unknown learns host and port from a %s event' % S, th and tp, slot='target:%s' % S,
-                   message='Stream.update[%s] with target_host None leaves the target unset (streams first seen in this state keep target (None, 0))' % S)
+    target_learning(run, 'R07.4')
     # Circuit path handling
     cu = run.idx.find_method(circuit_cls(run), 'update')
     g = cfg_of(cu)
@@ -450,6 +470,7 @@ RULES.insert(2, ('R07.3', 'after CLOSED/FAILED/DETACHED the stream is under no c
 from ..selftest import M  # noqa: E402
 FS, FT, FC = 'txtorcon/stream.py', 'txtorcon/torstate.py', 'txtorcon/circuit.py'
 MUTANTS = [
+    M('attach-only-for-listed-states', 'txtorcon/stream.py', "        if self.state not in ['CLOSED', 'FAILED', 'DETACHED']:\n            cid = int(args[2])", "        if self.state in ['SENTCONNECT', 'REMAP', 'SUCCEEDED']:\n            cid = int(args[2])", ['R07.2']),
     M('purpose-first-wins', 'txtorcon/circuit.py', "        if 'PURPOSE' in kw:", "        if self.purpose is None and 'PURPOSE' in kw:", ['R07.4']),
     M('reason-join-arity', 'txtorcon/circuit.py', "reason = '{}, {}'.format(reason, kw['REMOTE_REASON'])", "reason = ', '.join(reason, kw['REMOTE_REASON'])", ['R07.5']),
     M('stream_failed-keeps', FT, "        txtorlog.msg(\"stream_failed\", stream.id)\n        del self.streams[stream.id]\n", "        txtorlog.msg(\"stream_failed\", stream.id)\n", ['R07.1']),
